@@ -77,6 +77,21 @@ func jobsFor(id, tier string) []*Job {
 	}
 	_ = wmk
 	switch id {
+	case "C05":
+		var ps [][]int
+		for c := 0; c < 32; c++ { // 2 objects, names x and y, all 4 property kinds, first object sharded
+			ps = append(ps, []int{2, 4, c, 2})
+		}
+		if thorough {
+			for c := 0; c < 32; c++ { // 3 objects, two names, all kinds
+				ps = append(ps, []int{3, 4, c, 2})
+			}
+		} else {
+			for c := 0; c < 6; c++ { // 3 objects, one name, kinds absent/value/function
+				ps = append(ps, []int{3, 3, c, 1})
+			}
+		}
+		add(split(wmk("forest", "zzverifw.H_C05_forest", ps))...)
 	case "C14":
 		lmax := 1
 		if thorough {
@@ -184,6 +199,8 @@ func assumptionsFor(id string) []string {
 		"harness oracles written from the property statement and docs (DESIGN.md Appendix B)",
 	}
 	switch id {
+	case "C05":
+		return append(common, "every object carries a unique id property, so structural == (used by ancestors/kindOf?) coincides with identity", "forest model (parent, defined kinds, _missing) kept by the harness; expected raw property values are read from the definer's own Pairs map")
 	case "C14":
 		return append(common, "iterator family: <{|n| yield n * 10 + 1 if n < lim; recur(n + d)}> with lim in [-2,5], d in [1,3], start values in [-3,5] — all symbolic within those ranges", "reference = per-iterator state machine in the harness (DESIGN.md 5.14)")
 	case "C13":
@@ -213,6 +230,15 @@ func assumptionsFor(id string) []string {
 func boundsFor(id, tier string, jobs []*Job) map[string]interface{} {
 	b := map[string]interface{}{"tier": tier}
 	switch id {
+	case "C05":
+		if tier == "thorough" {
+			b["forest"] = "2 and 3 objects; each later object is a bear child or a bro sibling of a solver-chosen earlier object"
+			b["properties"] = "names x, y: absent / value / function / method per object; _missing present or not per object; lookups of x, y and the never-defined z on every object"
+		} else {
+			b["forest"] = "2 objects (names x, y; all property kinds) and 3 objects (name x; kinds absent / value / function); each later object is a bear child or a bro sibling of a solver-chosen earlier object"
+			b["properties"] = "names x, y per object; _missing present or not per object; lookups of x, y and the never-defined z on every object"
+		}
+		b["accessors"] = "o.name(7), o['name], which, proto, ancestors, kindOf? (all pairs), keys"
 	case "C14":
 		if tier == "thorough" {
 			b["history_length"] = "1..2 operations with the full ranges, 3 operations with narrow ranges (lim 0..2, stride 1..2, starts -1..2); + a final next on both iterators"
@@ -282,6 +308,8 @@ func boundsFor(id, tier string, jobs []*Job) map[string]interface{} {
 
 func outsideFor(id string) []string {
 	switch id {
+	case "C05":
+		return []string{"forests deeper or wider than the bound", "receivers that are not objects (ints, strs ... resolve through their built-in prototypes; covered indirectly by other checks)", "private (underscore) property names other than _missing", "properties defined on the built-in ancestors Obj/BaseObj shadowing user names", "Obj.new copies"}
 	case "C14":
 		return []string{"built-in iterators (arrIter/mapIter/rangeIter/intIter keep progress in closure variables; the statement is about iterator literals)", "iterator bodies outside the family (several yields, yields in nested calls)", "reduce chains over iterators", "more than two live iterators", "strides <= 0 (non-terminating chains)"}
 	case "C13":
